@@ -20,7 +20,7 @@ ASSUMPTIONS = [
 ]
 
 KINDS = {0: "binary", 1: "encoding", 2: "selective", 3: "restricted"}
-USE_BLOCKERS = False
+USE_BLOCKERS = True
 
 
 def make_actor(kind, grid, agents, mapping, stacked):
